@@ -690,10 +690,7 @@ func (r *repoT) customize(v dvid.VersionID, config dvid.Config) (*repoT, rpc.Tra
 		return nil, rpc.TransmitUnknown, fmt.Errorf("unknown transmit %s", transmitStr)
 	}
 
-	// Make a copy filtering by allowed data instances.
-	r.RLock()
-	defer r.RUnlock()
-
+	// Make a copy filtering by allowed data instances.  (duplicate takes the repo's read lock.)
 	dup, err := r.duplicate(versions, datanames, nil)
 	return dup, transmit, err
 }
